@@ -31,6 +31,20 @@ struct Gen {
     DNode roots[NROOTS];
     explicit Gen(uint64_t s) : rng(s), c14(false) {}
 
+    // a valid UTF-8 encoded code point: the edges of the encoding lengths and of the surrogate gap, or anything in between
+    std::string rand_utf8() {
+	static const long EDGE[] = {0x7f, 0x80, 0x7ff, 0x800, 0xfff, 0x1000, 0xcfff, 0xd000, 0xd7ff, 0xe000, 0xfffd, 0x10000, 0x10ffff, 0xac00, 0xd55c, 0x3b1, 0x20ac, 0x1f600};
+	long cp = rng.chance(0.5) ? EDGE[rng.below(sizeof EDGE / sizeof *EDGE)] : rng.range(0xa0, 0x10ffff);
+	if (cp >= 0xd800 && cp <= 0xdfff) cp = 0xd7ff;			// surrogates are not characters
+	if ((cp & 0xfffe) == 0xfffe || (cp >= 0xfdd0 && cp <= 0xfdef)) cp = 0xfffd;	// non-characters: YAML's printable set excludes some of them
+	if (cp == 0x85 || cp == 0x2028 || cp == 0x2029 || cp == 0xfeff || (cp >= 0x80 && cp < 0xa0)) cp = 0xa1;	// line breaks / BOM / C1 controls are covered by the fixed lists
+	std::string o;
+	if (cp < 0x80) o += (char)cp;
+	else if (cp < 0x800) { o += (char)(0xc0 | (cp >> 6)); o += (char)(0x80 | (cp & 0x3f)); }
+	else if (cp < 0x10000) { o += (char)(0xe0 | (cp >> 12)); o += (char)(0x80 | ((cp >> 6) & 0x3f)); o += (char)(0x80 | (cp & 0x3f)); }
+	else { o += (char)(0xf0 | (cp >> 18)); o += (char)(0x80 | ((cp >> 12) & 0x3f)); o += (char)(0x80 | ((cp >> 6) & 0x3f)); o += (char)(0x80 | (cp & 0x3f)); }
+	return o;
+    }
     std::string rand_key() {
 	int cls = (int)rng.below(10);
 	if (cls < 4) return SIMPLE_KEYS[rng.below(sizeof SIMPLE_KEYS / sizeof *SIMPLE_KEYS)];
@@ -42,6 +56,7 @@ struct Gen {
 	for (int i = 0; i < n; ++i) {
 	    if (!c14 && rng.chance(0.1)) k += (char)rng.range(0x80, 0xff);
 	    else if (rng.chance(0.1)) k += "\xc3\xa9";
+	    else if (rng.chance(0.12)) k += rand_utf8();
 	    else k += alpha[rng.below(sizeof alpha - 1)];
 	}
 	if (rng.chance(0.05)) k += std::string(40, 'L');
@@ -57,6 +72,7 @@ struct Gen {
 	for (int i = 0; i < n; ++i) {
 	    if (!c14 && rng.chance(0.05)) v += (char)rng.range(0x80, 0xff);
 	    else if (rng.chance(0.08)) v += "\xe2\x80\xa8";
+	    else if (rng.chance(0.15)) v += rand_utf8();
 	    else v += alpha[rng.below(sizeof alpha - 1)];
 	}
 	return v;
